@@ -150,6 +150,20 @@ func runMassiveMkdir(c Case) []Diff {
 	if nameErr(serr) != nameErr(err) {
 		d = append(d, Diff{What: "massive mkdir and simple mkdir disagree about the names", Real: "massive: " + classify(err), Model: "simple: " + classify(serr)})
 	}
+	if err == nil && serr == nil {
+		// both succeeded: the same file system (relative to the two jails)
+		relSnap := func(j string) string {
+			var out []string
+			for _, e := range snapshot(j) {
+				p := strings.SplitN(e, ":", 2)
+				out = append(out, strings.TrimPrefix(string(unhx(p[0])), j)+":"+p[1])
+			}
+			return strings.Join(out, ",")
+		}
+		if a, b := relSnap(jail), relSnap(twin); a != b {
+			d = append(d, Diff{What: "massive mkdir leaves a different file system than simple mkdir", Real: hxs(a), Model: hxs(b)})
+		}
+	}
 	return d
 }
 
